@@ -203,6 +203,64 @@ func c15LockFirst(body *ast.BlockStmt) bool {
 	return locked && deferred
 }
 
+// c15Sections: the critical-section structure of a function body in source order — operations on <recv>.lock
+// ("Lock", "RLock", "Unlock", "RUnlock", deferred ones as "defer Unlock"), calls of other quotaTopology methods ("call": a
+// helper could hide a section of its own), mentions of the three recorded maps ("state") and the pod List through
+// <recv>.client ("list"); consecutive repetitions merged.  lockOnly keeps the lock operations only.
+func c15Sections(body *ast.BlockStmt, lockOnly bool) []string {
+	var ev []string
+	add := func(t string) {
+		isLock := strings.HasSuffix(t, "ock")
+		if lockOnly && !isLock {
+			return
+		}
+		if len(ev) == 0 || ev[len(ev)-1] != t || isLock {
+			ev = append(ev, t)
+		}
+	}
+	lockOp := func(c *ast.CallExpr) string {
+		if s, ok := c.Fun.(*ast.SelectorExpr); ok {
+			if in, ok := s.X.(*ast.SelectorExpr); ok && in.Sel.Name == "lock" {
+				if id, ok := in.X.(*ast.Ident); ok && id.Name == c15Recv {
+					return s.Sel.Name
+				}
+			}
+		}
+		return ""
+	}
+	ast.Inspect(body, func(n ast.Node) bool {
+		switch v := n.(type) {
+		case *ast.DeferStmt:
+			if op := lockOp(v.Call); op != "" {
+				add("defer " + op)
+				return false
+			}
+		case *ast.CallExpr:
+			if op := lockOp(v); op != "" {
+				add(op)
+				return false
+			}
+			if s, ok := v.Fun.(*ast.SelectorExpr); ok {
+				if id, ok := s.X.(*ast.Ident); ok && id.Name == c15Recv {
+					add("call")
+				}
+				if in, ok := s.X.(*ast.SelectorExpr); ok && in.Sel.Name == "client" && s.Sel.Name == "List" {
+					if id, ok := in.X.(*ast.Ident); ok && id.Name == c15Recv {
+						add("list")
+					}
+				}
+			}
+		case *ast.SelectorExpr:
+			if id, ok := v.X.(*ast.Ident); ok && id.Name == c15Recv &&
+				(v.Sel.Name == "quotaInfoMap" || v.Sel.Name == "quotaHierarchyInfo" || v.Sel.Name == "namespaceToQuotaMap") {
+				add("state")
+			}
+		}
+		return true
+	})
+	return ev
+}
+
 // c15CmpNames: the extension.<X>QuotaName identifiers compared with == in the function.
 func c15CmpNames(body *ast.BlockStmt) []string {
 	set := map[string]bool{}
@@ -397,6 +455,64 @@ func init() {
 			fmt.Fprintf(&e.out, "def gate%s : String := %s\n", g, leanStr(def))
 		}
 		c15InformerFacts(e, get)
+		// round 4: critical sections.  ValidDeleteQuota: lock operations, helper calls, map accesses and the pod List in
+		// source order (model: Model/C15Race.lean `shapeOf`); every entry point / handler: its lock operations
+		if fd := get("ValidDeleteQuota"); fd != nil {
+			fmt.Fprintf(&e.out, "def delSections : List String := %s\n", c15List(c15Sections(fd.Body, false)))
+		} else {
+			fmt.Fprintf(&e.out, "def delSections : List String := []\n")
+		}
+		// quotaFieldsCopy (the unchanged-fields shortcut of ValidUpdateQuota compares two of these with reflect.DeepEqual):
+		// a single return of a literal; which label / annotation keys it copies (value = the same key of the parameter's
+		// map) and what it puts into Spec (model `sameFields`: the three labels, the namespaces annotation, the WHOLE spec
+		// maps — an entry with amount 0 is an entry)
+		fcStmts, fcSpec := 0, ""
+		fcLabels, fcAnnos := []string{}, []string{}
+		if fd := e.funcDecl(d, "", "quotaFieldsCopy"); fd != nil && fd.Body != nil {
+			fcStmts = len(fd.Body.List)
+			ast.Inspect(fd.Body, func(n ast.Node) bool {
+				kv, ok := n.(*ast.KeyValueExpr)
+				if !ok {
+					return true
+				}
+				switch c15Src(e, kv.Key) {
+				case "Spec":
+					fcSpec = c15Norm(e, fd, kv.Value)
+				case "Labels", "Annotations":
+					if cl, ok := kv.Value.(*ast.CompositeLit); ok {
+						for _, el := range cl.Elts {
+							if ikv, ok := el.(*ast.KeyValueExpr); ok {
+								k := c15Src(e, ikv.Key)
+								item := k
+								if c15Norm(e, fd, ikv.Value) != "$p0."+c15Src(e, kv.Key)+"["+k+"]" {
+									item = k + " := " + c15Norm(e, fd, ikv.Value)
+								}
+								if c15Src(e, kv.Key) == "Labels" {
+									fcLabels = append(fcLabels, item)
+								} else {
+									fcAnnos = append(fcAnnos, item)
+								}
+							}
+						}
+					}
+				}
+				return true
+			})
+		} else {
+			e.fail("quotaFieldsCopy not found")
+		}
+		fmt.Fprintf(&e.out, "def fieldsCopyStmts : Nat := %d\n", fcStmts)
+		fmt.Fprintf(&e.out, "def fieldsCopySpec : String := %s\n", leanStr(fcSpec))
+		fmt.Fprintf(&e.out, "def fieldsCopyLabels : List String := %s\n", c15List(fcLabels))
+		fmt.Fprintf(&e.out, "def fieldsCopyAnnotations : List String := %s\n", c15List(fcAnnos))
+		for _, f := range []struct{ fn, lean string }{{"ValidAddQuota", "addLockOps"}, {"ValidUpdateQuota", "updLockOps"}, {"ValidDeleteQuota", "delLockOps"},
+			{"OnQuotaAdd", "onAddLockOps"}, {"OnQuotaUpdate", "onUpdLockOps"}, {"OnQuotaDelete", "onDelLockOps"}} {
+			if fd := get(f.fn); fd != nil {
+				fmt.Fprintf(&e.out, "def %s : List String := %s\n", f.lean, c15List(c15Sections(fd.Body, true)))
+			} else {
+				fmt.Fprintf(&e.out, "def %s : List String := []\n", f.lean)
+			}
+		}
 	}
 }
 
